@@ -831,7 +831,7 @@ pub fn kinds_for(target: Target) -> Vec<DocSpec> {
             d("type-early", "[x, 2]\n"),
             d("anchor-then-type-error", "[&x 7, oops]\n"),
         ],
-        Target::Map | Target::RcMap => vec![
+        Target::Map | Target::RcMap | Target::GreedyMap => vec![
             d("anchors-b", "k: &x other\nj: *x\nm: &z third\n"),
             d("valid-a", "k1: v1\nk2: v2\n"),
             d("valid-b", "{a: b}\n"),
@@ -949,6 +949,11 @@ pub fn kinds_for(target: Target) -> Vec<DocSpec> {
             // tag directives end with their document
             DocSpec { directives: "%TAG !e! tag:example.com,2000:\n".into(), ..d("tag-directive-used", "v: !e!x 1\n") },
             d("tag-handle-undeclared", "v: !e!x 2\n"),
+            // the same syntax error met at a sequence item, at the root and in a flow sequence: the parser
+            // reports it after it has consumed the tag, so it does not repeat it on the next pull
+            d("tag-handle-undeclared-item", "- !e!x\n  - 1\n"),
+            d("tag-handle-undeclared-root", "!e!x 1\n"),
+            d("tag-handle-undeclared-flow", "[1, !e!x 2, 3]\n"),
             DocSpec { directives: "%TAG !! tag:example.com,2000:\n".into(), ..d("secondary-handle-redefined", "v: !!str 3\n") },
             d("secondary-tag-str", "v: !!str 4\n"),
             // a root that ends before a stray line: the document has ended implicitly, what follows is not a
@@ -961,7 +966,8 @@ pub fn kinds_for(target: Target) -> Vec<DocSpec> {
     v
 }
 
-pub const TARGETS: [Target; 12] = [
+pub const TARGETS: [Target; 13] = [
+    Target::GreedyMap,
     Target::UntilX,
     Target::Cfg,
     Target::VecI,
